@@ -38,7 +38,7 @@ def import_dreye():
 
 class SolveEvent:
     __slots__ = ("seq", "nvars", "var_shapes", "param_sizes", "status", "value",
-                 "faulted", "kwargs", "depth")
+                 "faulted", "kwargs", "depth", "solver")
 
     def as_tuple(self):
         return (self.seq, self.var_shapes, self.param_sizes, self.status,
@@ -85,6 +85,7 @@ class SolveSeam:
             ev.depth = seam.depth      # >0: a solve issued from inside another solve (bisection)
             ev.status = None
             ev.value = None
+            ev.solver = None
             if seam.record:
                 ev.var_shapes = tuple(tuple(v.shape) for v in problem.variables())
                 ev.param_sizes = tuple(int(p.size) for p in problem.parameters())
@@ -106,6 +107,10 @@ class SolveSeam:
                 seam.depth -= 1
             ev.status = problem.status
             ev.value = problem.value
+            try:
+                ev.solver = problem.solver_stats.solver_name
+            except Exception:  # noqa: BLE001
+                ev.solver = None
             if seam.on_solve is not None:
                 seam.on_solve(problem, ev)
             return out
